@@ -23,6 +23,8 @@ pub enum Case {
 }
 
 const ST_PARAMS: u32 = 50;
+/// always-present stratum: custom identifier list of n + 65536 entries
+const ST_WRAP: u32 = 102;
 const ST_HUGE: u32 = 60;
 
 impl Property for C06 {
@@ -59,6 +61,7 @@ impl Property for C06 {
         // strata 0..11: id style x entry point
         let mut v: Vec<(u32, u32)> = (0..12).map(|s| (s, per)).collect();
         v.push((ST_PARAMS, tier.pick(40, 400)));
+        v.push((ST_WRAP, tier.pick(2, 8)));
         if tier == Tier::Thorough && !suite.slow() {
             v.push((ST_HUGE, 1));
         }
@@ -70,7 +73,8 @@ impl Property for C06 {
     fn strategy(&self, suite: SuiteId, tier: Tier, stratum: u32) -> BoxedStrategy<Case> {
         match stratum {
             ST_HUGE => (any::<bool>(), any::<u64>()).prop_map(|(split, seed)| Case::Huge { split, seed }).boxed(),
-            ST_PARAMS => (0u16..8, 0u16..8, 0u8..10, idspec_strategy(None), any::<bool>(), any::<u64>())
+            ST_WRAP => (2u16..8, idspec_strategy(None), any::<bool>(), any::<u64>()).prop_map(|(n, ids, split, seed)| Case::Params { n, t: 2, kind: 10, ids, split, seed }).boxed(),
+            ST_PARAMS => (0u16..8, 0u16..8, 0u8..11, idspec_strategy(None), any::<bool>(), any::<u64>())
                 .prop_map(|(n, t, kind, ids, split, seed)| Case::Params { n, t, kind, ids, split, seed })
                 .boxed(),
             s => {
@@ -107,6 +111,7 @@ impl Property for C06 {
             ("params:t>n".into(), 5),
             ("params:duplicate-ids".into(), 5),
             ("params:wrong-id-count".into(), 5),
+            ("params:wrong-id-count-mod-65536".into(), 2),
         ]
     }
     fn check(&self, suite: SuiteId, case: &Case, ctx: &mut Ctx) -> CheckResult {
@@ -339,6 +344,12 @@ fn params<C: Suite>(n: u16, t: u16, kind: u8, ids: IdSpec, split: bool, seed: u6
             (nn, 2, Some(v), "duplicate-ids")
         }
         8 => (n.max(2), 1, Some(make_ids::<C>(ids, n.max(2) as usize)), "t<2"),
+        10 => {
+            // a custom list whose length equals n only modulo 2^16 (n + 65536 distinct identifiers)
+            let nn = n.max(2);
+            let v: Vec<Id<C>> = (1..=(nn as u64 + 65536)).map(|i| Id::<C>::new(sc_u64::<C>(i + (seed & 0xffff))).expect("non-zero scalar")).collect();
+            (nn, 2, Some(v), "wrong-id-count-mod-65536")
+        }
         _ => {
             // control: boundary-valid parameters must be accepted: t = n = 2 and t = 2, n = 3
             let nn = 2 + (n % 2);
